@@ -700,3 +700,99 @@ func failureStops(o *an.Obl, f *an.Func, what string, calls []an.Site, mode an.O
 
 // reSub replaces every match of re in s by repl.
 func reSub(re, repl, s string) string { return regexp.MustCompile(re).ReplaceAllString(s, repl) }
+
+// notReassigned: the named parameters / locals of f (and of its closures) are
+// never assigned after their definition (no `=`, `op=`, `++`, `--` with the
+// name on the left).  Used where a rule identifies a value by its parameter
+// position or by a uniquely defined local: an edit like `currentHeight++` or
+// `inputs = inputs[:n]` on entry would keep the canonical form and change the
+// value.
+func notReassigned(o *an.Obl, f *an.Func, names ...string) {
+	info := f.Info()
+	want := map[string]bool{}
+	for _, n := range names {
+		want[n] = true
+	}
+	report := func(id *ast.Ident, st ast.Node) {
+		if !want[id.Name] {
+			return
+		}
+		if _, isVar := info.Uses[id].(*types.Var); !isVar {
+			return // a definition (:=) is recorded in Defs, not Uses
+		}
+		o.FailAt(f.ID+"#reassigned-"+id.Name, f.Where(st.Pos()), "%s overwrites %s (%s); the rules of this obligation identify that value by its parameter position / single definition", f.ID, id.Name, an.Text(st))
+	}
+	ast.Inspect(f.Body, func(n ast.Node) bool {
+		switch x := n.(type) {
+		case *ast.AssignStmt:
+			for _, l := range x.Lhs {
+				if id, ok := ast.Unparen(l).(*ast.Ident); ok {
+					report(id, x)
+				}
+			}
+		case *ast.IncDecStmt:
+			if id, ok := ast.Unparen(x.X).(*ast.Ident); ok {
+				report(id, x)
+			}
+		}
+		return true
+	})
+	o.Site("%s: %v are not reassigned", f.ID, names)
+}
+
+// needExactly is need with an exact count: a rule that goes on to inspect
+// sites[0] must not silently ignore a second site.
+func needExactly(o *an.Obl, f *an.Func, what string, sites []an.Site, n int) bool {
+	if len(sites) != n {
+		o.FailAt(f.ID+"#count-"+what, f.Where(f.Body.Pos()), "expected exactly %d %s in %s, found %d", n, what, f.ID, len(sites))
+		return false
+	}
+	for _, s := range sites {
+		o.Site("%s", s.String())
+	}
+	return true
+}
+
+// resultUsed: the value bound to the idx-th result of the call at site s is
+// used somewhere in f other than in a blank assignment (`_ = x`): a computed
+// signature, secret or message that is dropped on the floor satisfies every
+// "the call happens" rule and changes what is sent or stored.
+func resultUsed(o *an.Obl, f *an.Func, s an.Site, idx int, what string) {
+	info := f.Info()
+	var obj types.Object
+	ast.Inspect(f.Body, func(n ast.Node) bool {
+		as, ok := n.(*ast.AssignStmt)
+		if !ok || len(as.Rhs) != 1 || ast.Unparen(as.Rhs[0]) != s.Node {
+			return true
+		}
+		if idx < len(as.Lhs) {
+			if id, ok := as.Lhs[idx].(*ast.Ident); ok && id.Name != "_" {
+				obj = info.Defs[id]
+				if obj == nil {
+					obj = info.Uses[id]
+				}
+			}
+		}
+		return true
+	})
+	if obj == nil {
+		o.FailAt(constructOf(f, s)+"#result-unbound", s.Where(), "the %s returned by %s is not bound to a variable", what, s.String())
+		return
+	}
+	used := false
+	ast.Inspect(f.Body, func(n ast.Node) bool {
+		if as, ok := n.(*ast.AssignStmt); ok && len(as.Lhs) == 1 {
+			if l, ok := as.Lhs[0].(*ast.Ident); ok && l.Name == "_" {
+				return false // `_ = x` is not a use
+			}
+		}
+		if id, ok := n.(*ast.Ident); ok && info.Uses[id] == obj {
+			used = true
+		}
+		return true
+	})
+	o.Site("%s: %s is used", s.String(), what)
+	if !used {
+		o.FailAt(constructOf(f, s)+"#result-discarded", s.Where(), "the %s returned by %s is never used", what, s.String())
+	}
+}
